@@ -198,7 +198,8 @@ def run(pid, tier, seed):
                     bad_slots.append(o)
         if bad_slots:
             # prefer a witness from a session with a gap and a sender between two members
-            o = sorted(bad_slots, key=lambda o: (not (o["ids"] and min(o["ids"]) < o["from"] < max(o["ids"])), len(o["ids"]), o["from"]))[0]
+            o = sorted(bad_slots, key=lambda o: (not (o["ids"] and min(o["ids"]) < o["from"] < max(o["ids"])), sum(len(c) for c in o.get("prev") or []),
+                                                     len(o.get("primed") or []), len(o["ids"]), o["from"]))[0]
             i, ids = o["attr_idx"], o["ids"]
             owner = ids[i] if i < len(ids) else None
             chk.monitor_hit("", "sender_slot_%s.json" % scheme,
@@ -210,11 +211,20 @@ def run(pid, tier, seed):
                                  affected=len(bad_slots),
                                  more=[dict(session=b["ids"], sender=b["from"], slot=b["attr_idx"],
                                             owner=b["ids"][b["attr_idx"]] if b["attr_idx"] < len(b["ids"]) else None) for b in bad_slots[:12]],
-                                 replay="NewParty(%s).Init(%s, 1, ..); OnMsg(<any well-formed message, e.g. Any{TypeUrl: %s}>, from=%d, broadcast); "
-                                        "the message in p.in has GetFrom().Index == %d" % (o.get("self"), ids, o.get("url"), o["from"], i)),
+                                 party_history=dict(earlier_committees=o.get("prev"), senders_heard_before_last_init=o.get("primed")) if o.get("prev") else None,
+                                 replay=("p := NewParty(%s); " % o.get("self")) +
+                                        "".join("p.Init(%s, 1, ..); p.OnMsg(<msg>, x, true) for x in %s; " % (c, [x for x in (o.get("primed") or [])][:12])
+                                                for c in (o.get("prev") or [])) +
+                                        "p.Init(%s, 1, ..); p.OnMsg(<any well-formed message, e.g. Any{TypeUrl: %s}>, from=%d, broadcast); "
+                                        "the message in p.in has GetFrom().Index == %d" % (ids, o.get("url"), o["from"], i)),
                             "%s OnMsg: sender %d (%s) filed under slot %d owned by %s in session %s"
                             % (scheme, o["from"], "member" if o["from"] in ids else "not a member", i, owner, ids))
+        re_rows = [o for o in ons if o["phase"] == "reinit"]
         slots[scheme] = dict(queued_with_slot_checked=slot_obs, of_which_non_members=slot_nonmember, wrong_slot=len(bad_slots),
+                             reinitialised_party_observations=len(re_rows),
+                             reinitialised_party_histories=len(set((o["self"], json.dumps(o.get("prev")), tuple(o["ids"])) for o in re_rows)),
+                             reinitialised_ex_members_seen=sum(1 for o in re_rows if not o["member"] and any(o["from"] in c for c in o.get("prev") or [])),
+                             sign_runs_on_reinitialised_objects=sum(1 for r in runs if r.get("reinit")),
                              sessions=len(set(tuple(o["ids"]) for o in ons)))
         for m in mals:
             if m["cls_panic"] or m["on_panic"] or (m["on_enq"] > 0 and m["attr_key"] != str(m["from"])):
@@ -287,7 +297,11 @@ def run(pid, tier, seed):
                        "broadcast flags; (b') slot lookup: idle parties of sessions with gaps / not starting at the smallest identifier / "
                        "with 0,255,256,65535 / random, senders = every member, member+-1, midpoints, boundary and random identifiers (below, "
                        "between and above the members): attributed key and From.Index (the slot tss-lib files the message under) compared "
-                       "with the model's locate, monitor: slot owner's key = sender's key or slot negative; (c) malformed inputs (every table URL of both schemes around foreign/empty content, unknown URLs, "
+                       "with the model's locate, monitor: slot owner's key = sender's key or slot negative; (b'') re-initialised parties: ONE object "
+                       "through Init(A) -> messages from members and outsiders -> Init(B) [-> Init(C)] (smaller id added, member removed, "
+                       "replaced, disjoint, boundary ids, same committee, random) and then the slot grid, compared with the model on the current "
+                       "committee only (reused object = fresh object); one Sign per configuration on objects that served the full committee "
+                       "before (after a real KeyGen where it ran) and are re-initialised with the signers minus the smallest identifier; (c) malformed inputs (every table URL of both schemes around foreign/empty content, unknown URLs, "
                        "single-character URL edits, all truncations, bit flips, random bytes of length 0..40) into ClassifyMsg and OnMsg; "
                        "(d) Sign for digests with and without leading zero bytes, of length 19..64, all-zero, all-ones. Non-trivial = "
                        "decodes as a protobuf Any (classification) / reaches the queueing decision / returns a signature; distinct by "
